@@ -6,6 +6,7 @@ vm/vmExpr.go, vm/vmExprFunction.go, vm/vmLetExpr.go and the scope operations of 
 `St.cur` is `runInfo.env`; scopes live in a heap (`St.scopes`) with parent links.
 -/
 import Anko.Proofs.EvalCur
+import Anko.Proofs.EvalMono
 
 set_option linter.unusedSectionVars false
 set_option linter.unusedSimpArgs false
@@ -147,6 +148,31 @@ theorem newScope_fresh (s : St) (p : Nat) :
   refine ⟨rfl, by simp [St.newScope], by simp [St.newScope], ?_⟩
   intro j hj
   simp [St.newScope, Array.getElem?_push, Nat.ne_of_lt hj]
+
+/-! ### the scope heap only grows (global invariant of whole runs) -/
+
+/-- Along ANY run - any program, any depth of calls, loops, errors, interruption - scopes are only
+ever appended and no existing scope changes its parent: the chain a closure captured stays the
+chain it captured, and a scope allocated for one invocation is never re-used for another (new
+ids are beyond every id that existed before). -/
+theorem parent_links_never_change (fuel : Nat) (p : Stmt) (s : St) (i : Nat) (hi : i < s.scopes.size) :
+    ((runProgram fuel p s).scopes[i]?).map (·.parent) = (s.scopes[i]?).map (·.parent) :=
+  (mono_runProgram fuel p s).parent_stable i hi
+
+theorem scope_ids_never_reused (fuel : Nat) (st : Stmt) (s : St) (p : Nat) :
+    s.scopes.size ≤ ((execStmt fuel st s).newScope p).1 := by
+  have := ((mono_all fuel).execStmt st s).sizes.1
+  simpa [St.newScope] using this
+
+/-- A function value keeps denoting the same closure - parameters, body and captured scope - for
+the rest of the run, whatever executes in between. -/
+theorem closures_are_immutable (fuel : Nat) (st : Stmt) (s : St) (id : Nat) (hid : id < s.closures.size) :
+    (execStmt fuel st s).closures[id]? = s.closures[id]? :=
+  ((mono_all fuel).execStmt st s).closure_stable id hid
+
+theorem closures_are_immutable_expr (fuel : Nat) (e : Expr) (s : St) (id : Nat) (hid : id < s.closures.size) :
+    (evalExpr fuel e s).closures[id]? = s.closures[id]? :=
+  ((mono_all fuel).evalExpr e s).closure_stable id hid
 
 /-! ### Non-vacuity -/
 example : chain #[⟨none, []⟩, ⟨some 0, []⟩, ⟨some 0, []⟩] 5 2 = [2, 0] := by decide
